@@ -14,7 +14,7 @@ func VerifC20_Probe() {
 	g := &types.MsgSwapOrder{Deadline: deadline, IsBuyOrder: buy}
 	p := &api.MsgSwapOrder{Deadline: deadline, IsBuyOrder: buy}
 	b1, err1 := g.Marshal()
-	b2, err2 := proto.Marshal(p)
+	b2, err2 := proto.MarshalOptions{AllowPartial: true}.Marshal(p)
 	verifAssert(err1 == nil && err2 == nil, "both families marshal")
 	verifAssert(bytes.Equal(b1, b2), "same bytes")
 }
